@@ -124,7 +124,7 @@ def gamma_points():
         pts.append(-10.0 ** e)
     for e in np.linspace(-3, 3, 16):
         pts.append(10.0 ** e)
-    pts += [-300.0, -299.999, -300.001, 300.0, 299.999, 300.001, -354.0, -355.0, -354.89, 354.0, 355.0, -400.0, -700.0, -1500.0, -2900.0, 400.0, 700.0]
+    pts += [-300.0, -299.999, -300.001, 300.0, 299.999, 300.001, -354.0, -355.0, -354.89, -354.8, -354.9, -350.0, 354.0, 355.0, -400.0, -700.0, -1500.0, -2900.0, 400.0, 700.0]
     return pts
 
 
@@ -169,7 +169,8 @@ def r2(c, rec):
     rec.err('density rel err', rel.max())
     # boundary layers narrower than ~1e-5 (|gamma_eff| > 1e4) are integrated by adaptive quadrature to about 1e-4
     eff = abs(c['gamma']) * c['nu'] * 4 * c['beta'] / (c['beta'] + 1) ** 2
-    if rel.max() > (1e-6 if eff <= 1e4 else 1e-3):
+    # (measured on the unchanged tree: 1.8e-3 at gamma=-1e6, h=0, where the integrand exp(-2 gamma x^2) is narrower than 1e-3)
+    if rel.max() > (1e-6 if eff <= 1e4 else (1e-3 if eff <= 1e5 else 1e-2)):
         i = int(np.argmax(rel))
         sig = dict(finding='phi_1D-nu-in-selection') if (c['nu'] != 1 and c['gamma'] != 0) else {}
         raise Violation('phi_1D(gamma=%r, h=%r, nu=%r, beta=%r) at x=%.6g is %r; the drift-selection equilibrium is %r (rel diff %.3e)'
